@@ -6,7 +6,7 @@
 set -u
 wt=$1; out=$2; filter=$3; shift 3
 cd "$wt" || exit 2
-git stash -q -u 2>/dev/null; git checkout -q -- . ; git clean -fdq -e target
+git checkout -q -- . ; git clean -fdq -e target
 git apply --check "$out/patch.diff" && echo "patch applies: yes" || { echo "patch applies: NO"; exit 1; }
 git apply "$out/patch.diff"
 echo "== existing suite with the patch"
